@@ -2037,3 +2037,78 @@ variant('b-cancel-helper-does-not-wait', ['C11'], 'rsocket/helpers.py',
 variant('b-cancel-helper-skips-running-tasks', ['C11'], 'rsocket/helpers.py',
         "    if task is not None and not task.done():", "    if task is not None and task.done():",
         ('C11.e', 'cancel_if_task_exists / cancels and awaits'))
+
+# C05.h frame builders hand out fresh frames
+variant_multi('b-cancel-frame-shared', ['C09', 'C05'], [
+    ('rsocket/frame_builders.py', "def to_cancel_frame(stream_id: int):\n    frame = CancelFrame()",
+     "_cancel_frame = CancelFrame()\n\n\ndef to_cancel_frame(stream_id: int):\n    frame = _cancel_frame")],
+    ('C05.h', 'to_cancel_frame'))
+variant_multi('b-keepalive-frame-cached', ['C05'], [
+    ('rsocket/frame_builders.py', "def to_keepalive_frame(data: bytes):", "@functools.lru_cache(maxsize=8)\ndef to_keepalive_frame(data: bytes):"),
+    ('rsocket/frame_builders.py', "from typing import Optional\n", "import functools\nfrom typing import Optional\n")],
+    ('C05.h', 'to_keepalive_frame'))
+
+# C07.f on_subscribe first
+variant('b-rx-publisher-subscribes-source-first', ['C07'], 'rsocket/rx_support/back_pressure_publisher.py',
+        """        super().subscribe(subscriber)
+        self._feedback = Subject()
+        observable = self._factory(self._feedback)
+        observable.subscribe(SubscriberAdapter(subscriber))
+""", """        self._feedback = Subject()
+        observable = self._factory(self._feedback)
+        adapter = SubscriberAdapter(subscriber)
+        observable.subscribe(adapter)
+        super().subscribe(subscriber)
+""", ('C07.f', 'InternalBackPressurePublisher.subscribe'))
+variant('t-rx-publisher-adapter-built-first', ['C07'], 'rsocket/reactivex/back_pressure_publisher.py',
+        """        super().subscribe(subscriber)
+        self._feedback = Subject()
+        observable = self._factory(self._feedback)
+        observable.subscribe(SubscriberAdapter(subscriber))
+""", """        adapter = SubscriberAdapter(subscriber)
+        self._feedback = Subject()
+        observable = self._factory(self._feedback)
+        super().subscribe(subscriber)
+        observable.subscribe(adapter)
+""", kind='twin')
+
+variant_multi('b-request-n-frame-kept-per-stream', ['C06', 'C05'], [
+    ('rsocket/handlers/request_stream_requester.py', "    def request(self, n: int):\n        self.send_request_n(n)",
+     """    def request(self, n: int):
+        if getattr(self, '_request_n_frame', None) is None:
+            self._request_n_frame = to_request_n_frame(self.stream_id, n)
+        self._request_n_frame.request_n = n
+        self.socket.send_frame(self._request_n_frame)"""),
+    ('rsocket/handlers/request_stream_requester.py', "from rsocket.frame_builders import to_request_stream_frame",
+     "from rsocket.frame_builders import to_request_stream_frame, to_request_n_frame")],
+    ('C05.h', 'RequestStreamRequester.request'))
+
+# C08.j COMPLETE on REQUEST_CHANNEL iff there is no publisher
+RCR = 'rsocket/handlers/request_channel_requester.py'
+variant_multi('b-channel-complete-by-subscription-state', ['C08'], [
+    (RCR, "                                     complete=self._publisher is None,",
+     "                                     complete=self.subscriber.subscription is None,"),
+    (RCR, "        if self._publisher is None:\n            self.mark_completed_and_finish(sent=True)",
+     "        if self.subscriber.subscription is None:\n            self.mark_completed_and_finish(sent=True)")],
+    ('C08.j', 'RequestChannelRequester.subscribe'))
+variant('b-channel-request-never-complete', ['C08'], RCR,
+        "                                     complete=self._publisher is None,",
+        "                                     complete=False,", ('C08.j', 'RequestChannelRequester.subscribe'))
+variant_multi('t-channel-complete-through-a-local', ['C08'], [
+    (RCR, "                                     complete=self._publisher is None,",
+     "                                     complete=not self._has_publisher(),"),
+    (RCR, "    def subscribe(self, subscriber: Subscriber):",
+     "    def _has_publisher(self):\n        return self._publisher is not None\n\n    def subscribe(self, subscriber: Subscriber):")],
+    kind='twin')
+
+# C04.j marker queues are read item by item
+variant('b-quic-listener-batches-the-queue', ['C04'], 'rsocket/transports/aioquic_transport.py',
+        "                data = await self._incoming_bytes_queue.get()\n",
+        "                data = await self._incoming_bytes_queue.get()\n                while not self._incoming_bytes_queue.empty():\n                    data += self._incoming_bytes_queue.get_nowait()\n",
+        ('C04.j', 'RSocketQuicTransport.incoming_data_listener'))
+variant('b-messaging-generator-yields-the-marker', ['C04'], 'rsocket/transports/abstract_messaging.py',
+        "        if isinstance(frame, Exception):\n            raise frame\n", "", ('C04', ''))
+variant('t-quic-listener-logs-before-the-test', ['C04'], 'rsocket/transports/aioquic_transport.py',
+        "                data = await self._incoming_bytes_queue.get()\n",
+        "                data = await self._incoming_bytes_queue.get()\n                logger().debug('Quic - item dequeued')\n",
+        kind='twin')
